@@ -811,7 +811,8 @@ def _desugar_factors_with_weights(design: List[Factor],
                 # Uses `replacements`:
                 f.desugar_for_weights(replacements)
         # Returned `replacements` is also used for constraint desugaring
-        return (list(chain.from_iterable([replacements.get(f, [f]) for f in design])),
+        # A desugared derived factor is its own flat factor, so it appears twice in its replacement pair
+        return (list(dict.fromkeys(chain.from_iterable([replacements.get(f, [f]) for f in design]))),
                 [[replacements.get(f, [f, f])[1] for f in c] for c in crossings],
                 replacements)
 
